@@ -302,6 +302,11 @@ func c13Directed() []c13Program {
 		{Init: with(c12Op{K: "Define", E: 1, S: "a", V: tv(3)}), Threads: [][]c12Op{
 			{{K: "DeleteGlobal", E: 1, S: "a"}, {K: "Get", E: 1, S: "a"}},
 			{{K: "Delete", E: 1, S: "a"}, {K: "Define", E: 1, S: "a", V: tv(12)}, {K: "Get", E: 1, S: "p"}}}},
+		{Init: with(c12Op{K: "Define", E: 0, S: "a", V: tv(2)}, c12Op{K: "Define", E: 1, S: "a", V: tv(3)}), Threads: [][]c12Op{ // two deletes: child's, then parent's
+			{{K: "DeleteGlobal", E: 1, S: "a"}}, {{K: "DeleteGlobal", E: 1, S: "a"}}, {{K: "Get", E: 1, S: "a"}}}},
+		{Init: with(c12Op{K: "Define", E: 0, S: "a", V: tv(2)}, c12Op{K: "Define", E: 1, S: "a", V: tv(3)}), Threads: [][]c12Op{
+			{{K: "DeleteGlobal", E: 1, S: "a"}, {K: "DefineType", E: 1, S: "Tb", T: 6}}, {{K: "Define", E: 1, S: "a", V: tv(13)}, {K: "Snap", E: 1}},
+			{{K: "DeleteGlobal", E: 1, S: "a"}, {K: "DeleteGlobal", E: 1, S: "a"}}}},
 		{Init: with(), Threads: [][]c12Op{ // a copy is one snapshot of values and types together
 			{{K: "Define", E: 1, S: "a", V: tv(11)}, {K: "DefineType", E: 1, S: "Ta", T: 3}},
 			{{K: "Snap", E: 1}}}},
